@@ -14,51 +14,52 @@ import (
 
 // Opt selects the variant of a scenario.
 type Opt struct {
-	Faults    bool // C17: every stub call may fail
-	CheckInv  bool // C15: assert Inv on every write
-	RealRoles bool // C03/C07/C15: real role handler over symbolic role cells (else a symbolic allow/deny stub)
-	Side      int  // transfers: 0 = same call both sides possible (sender side), 2 = destination side
-	Reprice   bool // C16: arbitrary prior prices, then SetNewGasConfig(g) before the call
-	NoFrozen  bool
+	Faults      bool // C17: every stub call may fail
+	CheckInv    bool // C15: assert Inv on every write
+	RealRoles   bool // C03/C07/C15: real role handler over symbolic role cells (else a symbolic allow/deny stub)
+	Side        int  // transfers: 0 = same call both sides possible (sender side), 2 = destination side
+	Reprice     bool // C16: arbitrary prior prices, then SetNewGasConfig(g) before the call
+	NoFrozen    bool
 	FixedCaller bool // the caller has the identity the function expects (skip authority variations)
-	Small     bool // smallest argument shapes only (for properties whose subject is not the arguments)
-	Medium    bool // thorough tier: keep the quick tier's argument length sets (the state space is what is widened)
-	Thin      bool // smallest pre-state space (world.Config.Thin)
-	GasEnough bool // gas is not the subject: GasProvided >= 2^48
-	NoRAE     bool // ReturnCallAfterError pinned to false
-	Direct    bool // CallType pinned to DirectCall
-	NoCall    bool // no attached contract call
-	NoPause   bool // no pause flags generated
-	Split1    bool // single-byte nonce split in generated metadata (quick tier)
-	NoURIs    bool // generated metadata carries no URIs
+	Small       bool // smallest argument shapes only (for properties whose subject is not the arguments)
+	Medium      bool // thorough tier: keep the quick tier's argument length sets (the state space is what is widened)
+	Thin        bool // smallest pre-state space (world.Config.Thin)
+	GasEnough   bool // gas is not the subject: GasProvided >= 2^48
+	NoRAE       bool // ReturnCallAfterError pinned to false
+	Direct      bool // CallType pinned to DirectCall
+	NoCall      bool // no attached contract call
+	NoPause     bool // no pause flags generated
+	PauseBinary bool // generated pause flags are absent or "paused" (no "present, not paused" variant)
+	Split1      bool // single-byte nonce split in generated metadata (quick tier)
+	NoURIs      bool // generated metadata carries no URIs
 	FullAmounts bool // numeric amounts keep their adversarial length set even in a Small scenario
-	VaryHash  bool // generated and carried metadata hashes have length 0 or 1 (else 1)
-	Call2     bool // attached calls may carry two call arguments
-	SysDest   bool // allow the system account address as transfer destination (finding F10's class)
-	Presence  int  // account presence: 0 free, 1 (S,D), 2 (S,nil), 3 (nil,D)
-	MultiK    int  // multi-transfer: number of tokens (0: 1..2)
-	CrossOnly bool // NFT/multi sender side: the destination is pinned to another shard
-	Wild      bool // C11: arbitrary argument counts and adversarial lengths per argument role
+	VaryHash    bool // generated and carried metadata hashes have length 0 or 1 (else 1)
+	Call2       bool // attached calls may carry two call arguments
+	SysDest     bool // allow the system account address as transfer destination (finding F10's class)
+	Presence    int  // account presence: 0 free, 1 (S,D), 2 (S,nil), 3 (nil,D)
+	MultiK      int  // multi-transfer: number of tokens (0: 1..2)
+	CrossOnly   bool // NFT/multi sender side: the destination is pinned to another shard
+	Wild        bool // C11: arbitrary argument counts and adversarial lengths per argument role
 }
 
 // Scn is one built-in call from an arbitrary well-formed world.
 type Scn struct {
-	Name   string
-	O      Opt
-	W      *world.World
-	Fn     vmcommon.BuiltinFunction
-	Snd    *world.Account // caller's account when it lives on the executing shard
-	Dst    *world.Account // recipient's account when it lives on the executing shard
-	In     *vmcommon.ContractCallInput
-	Out    *vmcommon.VMOutput
-	Err    error
-	Roles  *world.RolesStub
-	Gas    *vmcommon.GasCost // the schedule in force
-	Cost   uint64            // this function's own entry of Gas
-	Priced bool
-	Tok    []byte
-	NonceB []byte
-	Amt    []byte
+	Name    string
+	O       Opt
+	W       *world.World
+	Fn      vmcommon.BuiltinFunction
+	Snd     *world.Account // caller's account when it lives on the executing shard
+	Dst     *world.Account // recipient's account when it lives on the executing shard
+	In      *vmcommon.ContractCallInput
+	Out     *vmcommon.VMOutput
+	Err     error
+	Roles   *world.RolesStub
+	Gas     *vmcommon.GasCost // the schedule in force
+	Cost    uint64            // this function's own entry of Gas
+	Priced  bool
+	Tok     []byte
+	NonceB  []byte
+	Amt     []byte
 	DstAddr []byte
 	// expected charge of a successful sender-side execution (C16); valid when ChargeOK
 	Charge   uint64
@@ -120,7 +121,7 @@ func schedule(tag string) *vmcommon.GasCost {
 }
 
 func newScn(name string, o Opt) *Scn {
-	cfg := world.Config{Faults: o.Faults, CheckInv: o.CheckInv, NoFrozenGen: o.NoFrozen, MetaFieldLen: 1, MaxURIs: 1, Thin: o.Thin, NoPauseGen: o.NoPause, Split1: o.Split1 && !verif.Thorough(),
+	cfg := world.Config{Faults: o.Faults, CheckInv: o.CheckInv, NoFrozenGen: o.NoFrozen, MetaFieldLen: 1, MaxURIs: 1, Thin: o.Thin, NoPauseGen: o.NoPause, PauseBinary: o.PauseBinary, Split1: o.Split1 && !verif.Thorough(),
 		GasEnough: o.GasEnough, NoReturnAfterError: o.NoRAE, DirectCallOnly: o.Direct, VaryHash: o.VaryHash}
 	if o.RealRoles {
 		cfg.RolesMax = 2
@@ -209,10 +210,11 @@ func smallBytes(tag string) []byte {
 
 // wildArgs builds an adversarial argument list for a role spec (one letter per position:
 // t token id, n number, a address, b other bytes). Two sweeps (DESIGN.md C11):
-//   count sweep   - any count in 0..len(spec)+1, one-byte items (32-byte addresses);
-//   content sweep - the full count, every length drawn from the role's adversarial set
-//                   (numbers 0/1/8 bytes - so 2^64-1 and all residues of 3n+c are in range -
-//                   plus 2/9 bytes in the thorough tier; token ids 0/2; addresses 32/31).
+//
+//	count sweep   - any count in 0..len(spec)+1, one-byte items (32-byte addresses);
+//	content sweep - the full count, every length drawn from the role's adversarial set
+//	                (numbers 0/1/8 bytes - so 2^64-1 and all residues of 3n+c are in range -
+//	                plus 2/9 bytes in the thorough tier; token ids 0/2; addresses 32/31).
 func wildArgs(spec string) [][]byte {
 	if i := indexByte(spec, '|'); i >= 0 {
 		if verif.Choose("wild.mode", 2) == 0 {
@@ -249,30 +251,43 @@ func wildCount(spec string) [][]byte {
 }
 
 func wildContent(spec string) [][]byte {
+	// thorough length sets; long argument lists (the multi-transfer's 8 positions) get a reduced
+	// thorough set so that the product of the per-position choices stays explorable
+	full := wide() && len(spec) <= 6
+	semi := wide() && len(spec) > 6
 	args := make([][]byte, 0, len(spec))
 	for i := 0; i < len(spec); i++ {
 		var a []byte
 		switch spec[i] {
 		case 't':
-			if verif.Thorough() {
+			switch {
+			case full:
 				a = verif.BytesLen("w.tok", 0, 3)
-			} else {
+			case semi:
+				a = verif.BytesOf("w.tok", 2, 0)
+			default:
 				a = verif.Bytes("w.tok", 2)
 			}
 		case 'n':
-			if verif.Thorough() {
+			switch {
+			case full:
 				a = verif.BytesOf("w.num", 1, 0, 8, 2, 9)
-			} else {
+			case semi:
+				a = verif.BytesOf("w.num", 1, 0, 8, 9)
+			default:
 				a = verif.BytesOf("w.num", 1, 0, 8)
 			}
 		case 'a':
-			if verif.Thorough() {
+			switch {
+			case full:
 				a = verif.BytesOf("w.addr", 32, 31, 33)
-			} else {
+			case semi:
+				a = verif.BytesOf("w.addr", 32, 31)
+			default:
 				a = verif.Bytes("w.addr", 32)
 			}
 		default:
-			if verif.Thorough() {
+			if wide() {
 				a = verif.BytesOf("w.b", 1, 0)
 			} else {
 				a = verif.Bytes("w.b", 1)
@@ -644,7 +659,8 @@ func keyArg(tag string) []byte {
 		return verif.BytesOf(tag, 0, 6)
 	}
 	if wide() {
-		return verif.BytesLen(tag, 0, 10)
+		// around the 6-byte protected prefix and the 10-byte balance-key prefix
+		return verif.BytesOf(tag, 0, 1, 5, 6, 7, 10)
 	}
 	return verif.BytesOf(tag, 0, 5, 6, 7)
 }
@@ -790,6 +806,9 @@ func scnMultiTransfer(o Opt) *Scn {
 		args := [][]byte{{byte(k)}}
 		for i := 0; i < k; i++ {
 			it := MultiItem{Tok: tokenID("tok"), NonceB: verif.BytesOf("nonce", 1, 2)}
+			if small {
+				it.NonceB = verif.Bytes("nonce", 1)
+			}
 			n := nonceOf(it.NonceB)
 			var third []byte
 			if verif.Bool("item.nft") {
@@ -800,6 +819,9 @@ func scnMultiTransfer(o Opt) *Scn {
 			} else {
 				it.NonceB = []byte{0}
 				third = verif.BytesOf("item.amt", 1, 9)
+				if small && !fullAmounts {
+					third = verif.Bytes("item.amt", 1)
+				}
 				verif.Assume(third[0] != 0)
 			}
 			it.Amt = third
